@@ -56,7 +56,7 @@ func jsonQueries(kind string, o interface{}) string {
 
 func suiteJSON(c *Ctx) {
 	c.rep.Rule = "case = one reachable state of one of the 10 variants (random history incl. removals, partially filled heaps, single-column sketches, evictions) exported and imported into an instance holding other state; non-trivial = non-empty payload; distinct by (kind, history)"
-	kinds := []eqKind{eqCMS(false), eqCMS(true), eqHLL(false), eqHLL(true), eqBloom(false), eqBloom(true), eqCuckoo(false), eqCuckoo(true), eqTopK(false), eqTopK(true), eqTopKRates(false), eqTopKRates(true)}
+	kinds := []eqKind{eqCMS(false), eqCMS(true), eqHLL(false), eqHLL(true), eqBloom(false), eqBloom(true), eqCuckoo(false), eqCuckoo(true), eqTopK(false), eqTopK(true), eqTopKRates(false), eqTopKRates(true), eqCMSSquare(false), eqCMSSquare(true), eqTopKSquare(false), eqTopKSquare(true)}
 	rounds := c.scale(10, 60)
 	for r := 0; r < rounds; r++ {
 		for _, k := range kinds {
